@@ -3,7 +3,7 @@
 // sim::ReferenceSimulator under random and adversarial push/pop schedules and prints, for every rising
 // clock edge event, the inputs that were applied and the interface values sampled just before the edge.
 //
-// Usage: c15 <seed> <ncases> <eventsPerCase>
+// Usage: c15 <seed> <ncases> <eventsPerCase> [stream]      (`stream` = drive scl::strm::fifo instead, see runStreamCase)
 //
 // Protocol (one block per case):
 //   case <id> k=<log2 depth> N=<depth> min=<minDepth> w=<payload bits> lat=<D|S<n>|L<n>|M<n>> dual=<0|1> fpush=<a> fpop=<b> lw=<n> lr=<n>
@@ -16,6 +16,8 @@
 #include <gatery/pch.h>
 #include <gatery/frontend.h>
 #include <gatery/scl/Fifo.h>
+#include <gatery/scl/stream/Stream.h>
+#include <gatery/scl/stream/streamFifo.h>
 #include <gatery/simulation/SimulatorCallbacks.h>
 #include "common.h"
 #include "simhelp.h"
@@ -263,10 +265,113 @@ static void runCase(uint64_t id, Rng rng, size_t nEvents, std::ostream &o) {
 	o << "end\n";
 }
 
+// ---- stream FIFO (scl/stream/streamFifo.h : strm::fifo) -------------------------------------------
+// single clock; interface = ready/valid streams. latency request 0 = fall-through (bypass when empty).
+//   case <id> mode=stream min=<minDepth> w=<bits> lat=<..>        | ... err=e
+//   s <rst> <in_valid> <in_data> <out_ready> | <in_ready> <out_valid> <out_data>
+static void runStreamCase(uint64_t id, Rng rng, size_t nEvents, std::ostream &o) {
+	size_t k = rng.chance(1, 2) ? rng.range(1, 3) : rng.range(0, 5);
+	size_t N = size_t(1) << k;
+	size_t minDepth = (k == 0) ? 1 : rng.range((N >> 1) + 1, N);
+	static const std::vector<size_t> widths = {1, 2, 4, 8, 8, 13, 16, 33};
+	size_t w = rng.pick(widths);
+	LatOpt lat{'D', 0};
+	switch (rng.below(8)) {
+		case 0: lat = {'D', 0}; break;
+		case 1: case 2: case 3: lat = {'S', 0}; break;   // fall-through
+		case 4: case 5: lat = {'S', (size_t)rng.range(1, 4)}; break;
+		case 6: lat = {'L', (size_t)rng.range(1, 4)}; break;
+		default: lat = {'M', (size_t)rng.range(1, 4)}; break;
+	}
+	std::ostringstream hdr;
+	hdr << "case " << id << " mode=stream min=" << minDepth << " w=" << w << " lat=" << lat.kind;
+	if (lat.kind != 'D') hdr << lat.n;
+
+	DesignScope design;
+	Clock clock({ .absoluteFrequency = hlim::ClockRational(1'000'000, 1), .name = "clk" });
+	ClockScope cs(clock);
+	hlim::Node_Pin *pInValid, *pInData, *pOutReady, *oInReady, *oOutValid, *oOutData;
+	try {
+		scl::RvStream<UInt> in{ UInt{ BitWidth(w) } };
+		auto ipValid = pinIn().setName("in_valid"); pInValid = ipValid.node(); valid(in) = ipValid;
+		auto ipData = pinIn(BitWidth(w)).setName("in_data"); pInData = ipData.node(); *in = (UInt)ipData;
+		oInReady = pinOut(ready(in)).setName("in_ready").node();
+		scl::RvStream<UInt> out = scl::strm::fifo(move(in), minDepth, mkLat(lat));
+		oOutValid = pinOut(valid(out)).setName("out_valid").node();
+		oOutData = pinOut(*out).setName("out_data").node();
+		auto ipReady = pinIn().setName("out_ready"); pOutReady = ipReady.node(); ready(out) = ipReady;
+		design.postprocess();
+	} catch (const gtry::utils::DesignError &e) {
+		if (getenv("C15_VERBOSE")) std::cerr << "case " << id << ": " << e.what() << "\n";
+		o << hdr.str() << " err=e\nend\n";
+		return;
+	}
+	o << hdr.str() << "\n";
+
+	ClockSpy spy;
+	spy.pushClk = spy.popClk = clock.getClk()->getClockPinSource();
+	sim::ReferenceSimulator sim(false);
+	sim.addCallbacks(&spy);
+	sim.compileProgram(design.getCircuit());
+	sim.powerOn();
+	auto set = [&](hlim::Node_Pin *pin, const std::string &bits) { sim.simProcSetInputPin(pin, sim::convertToExtended(vh::bitsFromString(bits))); };
+	auto get = [&](hlim::Node_Pin *pin) { return vh::bitsToString(sim.getValueOfOutput(pin->getDriver(0))); };
+
+	bool inValid = false, outReady = false;
+	std::string inData = toBits(0, w);
+	uint64_t counter = 1;
+	Mode mode = IDLE; size_t modeLeft = 0;
+	bool released = false;
+	for (size_t ev = 0; ev < nEvents; ev++) {
+		set(pInValid, inValid ? "1" : "0"); set(pInData, inData); set(pOutReady, outReady ? "1" : "0");
+		sim.reevaluate();
+		std::string inReady = get(oInReady), outValid = get(oOutValid), outData = get(oOutData);
+		bool rst = spy.pushRst;
+		spy.pushEdge = false;
+		size_t guard = 0;
+		while (!spy.pushEdge) {
+			sim.advanceEvent();
+			if (!spy.pushEdge) rst = spy.pushRst;
+			if (++guard > 1000) { o << "abort no-clock-edge\n"; break; }
+		}
+		o << "s " << (rst ? 1 : 0) << ' ' << (inValid ? 1 : 0) << ' ' << inData << ' ' << (outReady ? 1 : 0)
+		  << " | " << inReady << ' ' << outValid << ' ' << outData << '\n';
+		if (!released) { released = !spy.pushRst; if (!released) continue; }
+		if (modeLeft == 0) {
+			mode = (Mode)rng.below(NMODES);
+			modeLeft = (mode == BURST || mode == DRAIN) ? rng.range(N, 3 * N + 8) : (mode == IDLE ? rng.range(1, 6) : rng.range(3, 5 * N + 10));
+		} else modeLeft--;
+		// a valid beat that was not taken must be held (ready/valid protocol); ready may change freely
+		bool held = inValid && inReady != "1";
+		if (!held) {
+			switch (mode) {
+				case RANDOM: inValid = rng.chance(1, 2); break;
+				case BURST: case BOTH: inValid = true; break;
+				case DRAIN: case IDLE: inValid = false; break;
+				case POLITE: inValid = rng.chance(2, 3); break;
+				case PUSH_HEAVY: inValid = rng.chance(7, 8); break;
+				case POP_HEAVY: inValid = rng.chance(1, 4); break;
+				default: inValid = false;
+			}
+			inData = rng.chance(1, 16) ? toBits(rng.next(), w) : toBits(counter++, w);
+		}
+		switch (mode) {
+			case RANDOM: case POLITE: outReady = rng.chance(1, 2); break;
+			case DRAIN: case BOTH: outReady = true; break;
+			case BURST: case IDLE: outReady = false; break;
+			case PUSH_HEAVY: outReady = rng.chance(1, 4); break;
+			case POP_HEAVY: outReady = rng.chance(7, 8); break;
+			default: outReady = false;
+		}
+	}
+	o << "end\n";
+}
+
 int main(int argc, char **argv) {
 	uint64_t seed = vh::argU64(argc, argv, 1, 1);
 	uint64_t ncases = vh::argU64(argc, argv, 2, 10);
 	uint64_t nEvents = vh::argU64(argc, argv, 3, 200);
+	bool streamMode = argc > 4 && std::string(argv[4]) == "stream";
 	std::ios::sync_with_stdio(false);
 	// gatery may drop debug visualisations (*.dot) into the cwd when a design check fails: keep them out of the tree
 	{ std::error_code ec; std::filesystem::current_path(std::filesystem::temp_directory_path(), ec); }
@@ -276,7 +381,7 @@ int main(int argc, char **argv) {
 		Rng r = master.fork();
 		std::ostringstream os;
 		try {
-			runCase(c, r, nEvents, os);
+			if (streamMode) runStreamCase(c, r, nEvents, os); else runCase(c, r, nEvents, os);
 		} catch (const std::exception &e) {
 			std::string msg = e.what();
 			for (auto &ch : msg) if (ch == '\n') ch = ' ';
